@@ -318,8 +318,8 @@ theorem execCtx_m (c : CSt) (x : CtxOp) : (execCtx c x).1.m = { c.m with pokes :
   cases hs : c.m.status <;> simp only [hs]
   cases x with
   | frame k ip => cases ip <;> rfl
-  | backtrace => rfl
-  | locals => rfl
+  | backtrace ok => cases ok <;> rfl
+  | locals ok => cases ok <;> rfl
 
 theorem execC_ctx_m (c : CSt) (x : CtxOp) : (execC c (.ctx x)).1.m = { c.m with pokes := [] } := execCtx_m c x
 
